@@ -148,6 +148,9 @@ def counterexample(crate, harness_short):
         return None, None, [], out
     failing = [t for t in tests if "Check for `cover`" not in t[0]]
     test_text, test_name = (failing or tests)[0]
+    # the doc comment Kani puts in front quotes the failed check's description, which may span lines or contain an
+    # unbalanced quote: keep only the test item itself
+    test_text = test_text[test_text.index("#[test]"):]
     vals = re.findall(r"^\s*// (.*)\n\s*vec!\[([^\]]*)\]", test_text, re.M)
     decoded = [{"value": v.strip(), "bytes": [int(x) for x in b.replace(" ", "").split(",") if x]} for v, b in vals]
     return test_text, test_name, decoded, out
